@@ -5,6 +5,7 @@ import (
 	"fmt"
 	"strings"
 	"testing"
+	"time"
 
 	"pgregory.net/rapid"
 
@@ -33,6 +34,11 @@ type Case struct {
 	Net bool `json:"net,omitempty"`
 	// VRFs, when set: the server's non-default instances (default {VRF-A, VRF-B})
 	VRFs []string `json:"vrfs,omitempty"`
+	// SlowAt > 0: instead of the request matrix one Get(all, ALL) is issued by a reader that
+	// takes SlowMs milliseconds (real time) to accept the SlowAt-th response; the stream must
+	// still deliver every entry and end OK
+	SlowAt int `json:"slowat,omitempty"`
+	SlowMs int `json:"slowms,omitempty"`
 }
 
 func setup() {
@@ -233,6 +239,26 @@ func runCase(c Case) *ev.Verdict {
 				}
 			}
 		}
+		if c.SlowAt > 0 {
+			rs, err, hg := s.GetSlow(getReq("all", spb.AFTType_ALL), c.SlowAt, time.Duration(c.SlowMs)*time.Millisecond)
+			if hg != nil {
+				l2.HangFinding(vv, "C07", hg)
+				return
+			}
+			if err != nil {
+				vv.Fail("C07/get-error", "Get(all,ALL) for a reader that took %d ms for response %d failed: %v", c.SlowMs, c.SlowAt, err)
+				return
+			}
+			st, dups, _ := obs.FromGet(rs)
+			if len(dups) > 0 {
+				vv.Fail("C07/duplicate-entry", "Get(all,ALL) for a slow reader streamed keys more than once: %v", dups)
+			}
+			if d := obs.Diff(scope(m, "all", spb.AFTType_ALL), st); len(d) > 0 {
+				vv.Fail("C07/scope-mismatch:slow-reader:"+obs.DiffClass(d), "Get(all,ALL) for a reader that took %d ms to accept response %d ended OK but does not return exactly the installed entries: %s", c.SlowMs, c.SlowAt, strings.Join(d, "; "))
+			}
+			vv.Class(fmt.Sprintf("slow-reader:%dms", c.SlowMs))
+			return
+		}
 		matrix(s, m, vv, names)
 	}})
 	for f := range fields {
@@ -304,6 +330,32 @@ func TestCampaign(t *testing.T) {
 			}
 			col.Check(rt, ev.JSON(c), v)
 		})
+	})
+	t.Run("slow-reader", func(t *testing.T) {
+		// one case per shard: a live reader that takes seconds (real time) for one response
+		ms := []int{1100, 2100, 5100, 6000}
+		if ev.Thorough() {
+			ms = append(ms, 10100, 11000, 15100)
+		}
+		sk, _ := ev.Shard()
+		c := Case{Batch: []int{4}, SlowAt: 1 + sk%3, SlowMs: ms[(sk+int(ev.Seed()))%len(ms)]}
+		c.H.FwdRefs = true
+		id := uint64(0)
+		for i, ni := range hgen.NIs {
+			for j := 1; j <= 3; j++ {
+				id++
+				c.H.Steps = append(c.H.Steps, hgen.Step{Op: &gen.Op{ID: id, NI: ni, Kind: gen.NH, Act: gen.ADD, Key: fmt.Sprint(j), IP: fmt.Sprintf("192.0.2.%d", 10*i+j)}})
+			}
+			id++
+			c.H.Steps = append(c.H.Steps, hgen.Step{Op: &gen.Op{ID: id, NI: ni, Kind: gen.NHG, Act: gen.ADD, Key: "1", Hops: []gen.Hop{{Index: 1}, {Index: 2}}}})
+			id++
+			c.H.Steps = append(c.H.Steps, hgen.Step{Op: &gen.Op{ID: id, NI: ni, Kind: gen.V4, Act: gen.ADD, Key: "10.0.0.0/8", Group: 1}})
+		}
+		v := runCase(c)
+		v.NonTrivial = true
+		if fresh := col.Record(ev.JSON(c), v); len(fresh) > 0 {
+			t.Errorf("%s: %v", ev.JSON(c), fresh)
+		}
 	})
 	t.Run("many-instances", func(t *testing.T) {
 		// servers with 0-20 non-default instances (sizes around 4, 8 and 16 preferred) holding a
